@@ -20,6 +20,8 @@ for res in sorted(glob.glob('/verif/work/seedres/*.txt')):
         pid=pid[:-2]; src='/tmp/seed5-%s'%pid
     elif pid.endswith('r6'):
         pid=pid[:-2]; src='/tmp/seed6-%s'%pid
+    elif pid.endswith('r7'):
+        pid=pid[:-2]; src='/tmp/seed7-%s'%pid
     kv={}
     for l in open(res):
         if '=' in l:
